@@ -66,10 +66,28 @@ impl Clone for SvgElement {
 impl SvgElement {
     // assumed: attribute lookup (AttrMap is string code, see DESIGN 1)
     #[verifier::external_body]
-    pub fn get_attr(&self, key: &str) -> Option<String> { unimplemented!() }
+    pub fn get_attr(&self, key: &str) -> (r: Option<String>) ensures (match r { Some(s) => Some(s@), None => None }) == attr_spec(*self, key@) { unimplemented!() }
 }
+pub uninterp spec fn attr_spec(el: SvgElement, key: Seq<char>) -> Option<Seq<char>>;
+pub uninterp spec fn urlref_spec(s: Seq<char>) -> Option<ElRef>;
+/// the element a `clip-path="url(#id)"` attribute names, if any
+pub open spec fn clip_of(el: SvgElement) -> Option<ElRef> {
+    match attr_spec(el, "clip-path"@) { Some(u) => urlref_spec(u), None => None }
+}
+/// dispatched to Container (an element with content that is neither a group nor a control element): returned as
+/// is, its clip-path is not looked at (clip paths are honoured on groups and on single shapes)
+pub open spec fn plain_container(el: SvgElement) -> bool {
+    let n = el.name@;
+    !(n == "loop"@ || n == "config"@ || n == "reuse"@ || n == "specs"@ || n == "var"@ || n == "if"@ || n == "defaults"@ || n == "for"@ || n == "g"@ || n == "symbol"@)
+    && el.event_range is Some && el.event_range->Some_0.0 != el.event_range->Some_0.1
+}
+/// is an element registered under this reference (a function of the element tables)
+pub uninterp spec fn known(ctx: TransformerContext, r: ElRef) -> bool;
+/// R-andthen: `self.get_attr("clip-path").and_then(|url| extract_urlref(&url))`
 #[verifier::external_body]
-pub fn extract_urlref(input: &str) -> Option<ElRef> { unimplemented!() }
+pub fn clip_ref(el: &SvgElement) -> (r: Option<ElRef>) ensures r == clip_of(*el) { unimplemented!() }
+#[verifier::external_body]
+pub fn extract_urlref(input: &str) -> (r: Option<ElRef>) ensures r == urlref_spec(input@) { unimplemented!() }
 impl BoundingBox {
     #[verifier::external_body]
     pub fn intersect(&self, other: &BoundingBox) -> Option<BoundingBox> { unimplemented!() }
@@ -99,12 +117,13 @@ impl TransformerContext {
 
     // assumed frame contracts of context functions not verified in this unit
     #[verifier::external_body]
-    pub fn get_element(&self, elref: &ElRef) -> Option<&SvgElement> { unimplemented!() }
+    pub fn get_element(&self, elref: &ElRef) -> (r: Option<&SvgElement>) ensures r is Some == known(*self, *elref) { unimplemented!() }
     #[verifier::external_body]
     pub fn get_element_bbox(&self, el: &SvgElement) -> Result<Option<BoundingBox>> { unimplemented!() }
     #[verifier::external_body]
     pub fn update_element(&mut self, el: &SvgElement)
         ensures final(self).current_depth == old(self).current_depth, final(self).config == old(self).config, final(self).gen_depths == old(self).gen_depths,
+            forall|r: ElRef| known(*old(self), r) ==> #[trigger] known(*final(self), r),      // registration only adds
     { unimplemented!() }
 }
 
@@ -228,11 +247,16 @@ impl EventGen for IfElement {
 }
 
 impl EventGen for SvgElement {
+//@rewrite strlit strmatch
 //@item src/transform.rs :: impl EventGen for SvgElement :: fn generate_events
+//@ strlit "loop" "config" "reuse" "specs" "var" "if" "defaults" "for" "g" "symbol" "clip-path"
+//@ replace-re[R-andthen] <<<self\.get_attr\("clip-path"\)\s*\.and_then\(\|url\| extract_urlref\(&url\)\)>>> => <<<clip_ref(self)>>>
 //@ ensures
 //@ - old(context).current_depth + 1 > old(context).config.depth_limit ==> r is Err    @@C17.depth.guard @@C01.depth.guard
 //@ - final(context).gen_depths@.len() > old(context).gen_depths@.len() ==> final(context).gen_depths@[old(context).gen_depths@.len() as int] == old(context).current_depth + 1    @@C01.depth.counted_while_nested @@C17.depth.counted_while_nested
+//@ - r is Ok && clip_of(*self) is Some && !known(*final(context), clip_of(*self)->Some_0) && !plain_container(*self) ==> r->Ok_0.1 is None     @@C08.clip.unknown_target_gives_no_box @@C10.clip.unknown_target_gives_no_box
 //@end
+//@rewrite -strlit -strmatch
 }
 
 } // verus!
